@@ -1291,9 +1291,9 @@ def run(ctx):
             ctx.log("Gen.lean regenerated (changed)")
     except Exception as e:  # noqa
         ctx.broken("translate:c16:combine_factoid", "untranslatable: %r" % e)
-    proofs_ok = ctx.lean_props(["Holpy.C16.Props"], exes=[EXE])
+    proofs_ok = ctx.lean_props(["Holpy.C16.Props", "Holpy.C16.PropsSimplex"], exes=[EXE])
     if ctx.tier == "thorough" and proofs_ok:
-        ctx.lean_check_modules(["Holpy.C16.Props"])
+        ctx.lean_check_modules(["Holpy.C16.Props", "Holpy.C16.PropsSimplex"])
     ctx.coverage["trusted_base"] += [
         "translator of omega.combine_real_factoid / combine_dark_factoid (Python AST -> Gen.lean, harness/props/c16.py)",
         "correspondence harness (generators, derivation/witness serialisation, rows -> GreaterEq/LessEq encoding, explanation -> Farkas multipliers)",
